@@ -11,9 +11,14 @@
         only for byte-aligned samples; spec_frame_c = spec_frame rearranged to (rows, columns, samples)
      img = current description + PixelData + what pydicom's cached decoded array was decoded from
         (None = nothing cached); st_one / st_batch / pixel_array : get_stored_frame / get_stored_frames /
-        pixel_array on such an image; step / run_ops : a history of reads and edits *)
+        pixel_array on such an image; step / run_ops : a history of reads and edits
+     answer c pd f ai : the frame of the standardised index read straight off pd, or IndexError
+     limg = lazily read image: current description + PixelData in the file + what highdicom cached in
+        self._pixel_array (with the description it was decoded under); lz_one / lz_batch / lz_whole / lstep / lrun_ops
+     good_pframes / marked_pframe : frames given as lists of fragment PAYLOADS (bytes); item_of p = (length, starts
+        with FF D8 or FF 4F); reader_enc_bytes = open the file (table choice) + read_frame_raw, returning bytes *)
 From Coq Require Import String ZArith List Bool.
-From HD Require Import Base.Val C05_Model C05_Proofs C05_Proofs_Encaps C05_Proofs_State.
+From HD Require Import Base.Val C05_Model C05_Proofs C05_Proofs_Encaps C05_Proofs_State C05_Proofs_Ext C05_Proofs_Lazy.
 Import ListNotations.
 Open Scope Z_scope.
 
@@ -277,3 +282,166 @@ Example C05_planar_bitpacked_outside :
   frame_of_array_c c pd 0 = Ok [1;0;1;0;0;1;1;1;1;0;1;1;0;1;0;1;1;0;0;0;0;1;0;0].
 Proof. split; vm_compute; reflexivity. Qed.
 Print Assumptions C05_planar_bitpacked_outside.
+
+(* ================================================================== *)
+(* extension: the property sentence; values, lengths, shapes; bytes of encapsulated frames;
+   the file around PixelData; lazily read images under histories          *)
+(* ================================================================== *)
+(* "the stored values of frame i obtained one at a time, in batches, from the whole pixel array, or lazily
+   from the file on demand are identical to each other and to what pydicom decodes for that frame, and raw
+   frame bytes decode to the same values; frame numbers are 1-based unless indices are requested, and
+   numbers outside the image are rejected rather than wrapped" - native pixel data, every valid image,
+   every frame number, either convention, every cache state of the in-memory image *)
+Theorem C05_every_way_same : forall c pd f ai, valid_c c -> enough (c_fmt c) pd ->
+  let n := f_frames (c_fmt c) in
+  (forall cache, snd (st_one (Img c pd cache) f ai) = answer c pd f ai) /\
+  (forall cache, snd (st_batch (Img c pd cache) [f] ai) = rmap (fun a => [a]) (answer c pd f ai)) /\
+  lz_one (LImg c pd None) f ai = rmap (pair c) (answer c pd f ai) /\
+  (forall i, std_index n f ai = Ok i ->
+     exists fs, whole_array_c c pd = Ok fs /\ answer c pd f ai = Ok (nth (Z.to_nat i) fs [])) /\
+  (forall lazy, bind (get_raw_frame lazy (c_fmt c) pd f ai) (fun raw =>
+                  bind (std_index n f ai) (fun i => decode_native_c c i raw)) = answer c pd f ai) /\
+  ((ai = true /\ (f < 0 \/ n <= f)) \/ (ai = false /\ (f < 1 \/ n < f)) <-> answer c pd f ai = Err "IndexError"%string).
+Proof. exact every_way_same. Qed.
+Print Assumptions C05_every_way_same.
+
+(* what is returned fits BitsStored / PixelRepresentation (hence the dtype): 0/1 for bit-packed data,
+   [0, 2^BitsStored) unsigned, [-2^(BitsStored-1), 2^(BitsStored-1)) signed *)
+Theorem C05_values_fit_stored_bits : forall c pd i v, 1 <= f_stored (c_fmt c) ->
+  In v (spec_frame_c c pd i) -> stored_range (c_fmt c) v.
+Proof. exact spec_frame_c_range. Qed.
+Print Assumptions C05_values_fit_stored_bits.
+
+(* the unused-bit correction: the result is in range and congruent to the stored word modulo
+   2^BitsStored (so it IS the low BitsStored bits); words already in range are returned unchanged *)
+Theorem C05_unused_bits_rule : forall bs (sg : bool) u, 1 <= bs ->
+  (if sg then - 2 ^ (bs - 1) <= fix_stored bs sg u < 2 ^ (bs - 1) else 0 <= fix_stored bs sg u < 2 ^ bs) /\
+  (fix_stored bs sg u - u) mod 2 ^ bs = 0.
+Proof. exact fix_stored_range. Qed.
+Print Assumptions C05_unused_bits_rule.
+
+Theorem C05_unused_bits_identity : forall bs (sg : bool) u, 1 <= bs ->
+  (if sg then 0 <= u < 2 ^ (bs - 1) else 0 <= u < 2 ^ bs) -> fix_stored bs sg u = u.
+Proof. exact fix_stored_id. Qed.
+Print Assumptions C05_unused_bits_identity.
+
+(* every answer has Rows * Columns * SamplesPerPixel values, which is what its shape says *)
+Theorem C05_frame_length : forall c pd i, valid_c c -> enough (c_fmt c) pd -> 0 <= i < f_frames (c_fmt c) ->
+  zlen (spec_frame_c c pd i) = f_npx (c_fmt c).
+Proof. exact spec_frame_c_length. Qed.
+Print Assumptions C05_frame_length.
+
+Theorem C05_shape_matches_values : forall c cols pd i, geometry c cols -> valid_c c -> enough (c_fmt c) pd ->
+  0 <= i < f_frames (c_fmt c) ->
+  shape_of c = (if c_spp c =? 1 then [c_rows c; cols] else [c_rows c; cols; c_spp c]) /\
+  fold_right Z.mul 1 (shape_of c) = zlen (spec_frame_c c pd i).
+Proof. exact shape_and_values. Qed.
+Print Assumptions C05_shape_matches_values.
+
+(* ---- encapsulated pixel data, bytes ---- *)
+(* open the file - basic, extended or no offset table; one fragment per frame or marker-delimited
+   frames of any number of fragments - and read frame i: exactly the bytes of the fragments of frame i
+   in order; outside the image: refused *)
+Theorem C05_reader_bytes_end_to_end : forall pfs bot eot i, good_pframes pfs -> pfs <> [] ->
+  (forall f, In f pfs -> marked_pframe f) \/ (forall f, In f pfs -> exists p, f = [p]) ->
+  (eot = None \/ eot = Some (frame_offsets 0 (items_of pfs))) ->
+  (bot = [] \/ bot = frame_offsets 0 (items_of pfs)) ->
+  reader_enc_bytes eot bot (concat pfs) (zlen pfs) i =
+    if (i <? 0) || (i >=? zlen pfs) then Err "ValueError"%string else Ok (concat (nth (Z.to_nat i) pfs [])).
+Proof. exact reader_enc_bytes_correct. Qed.
+Print Assumptions C05_reader_bytes_end_to_end.
+
+(* the same file through a lazily read Image: frame number convention, then the same bytes *)
+Theorem C05_lazy_image_raw_bytes : forall pfs bot eot f ai, good_pframes pfs -> pfs <> [] ->
+  (forall f, In f pfs -> marked_pframe f) \/ (forall f, In f pfs -> exists p, f = [p]) ->
+  (eot = None \/ eot = Some (frame_offsets 0 (items_of pfs))) ->
+  (bot = [] \/ bot = frame_offsets 0 (items_of pfs)) ->
+  lazy_raw_enc_bytes eot bot (concat pfs) (zlen pfs) f ai =
+    bind (std_index (zlen pfs) f ai) (fun i => Ok (concat (nth (Z.to_nat i) pfs []))).
+Proof. exact lazy_raw_enc_bytes_correct. Qed.
+Print Assumptions C05_lazy_image_raw_bytes.
+
+(* ---- native data inside the file: header of the element and trailing bytes are never returned ---- *)
+Theorem C05_reader_file_is_pixeldata : forall implicit_vr bits npx n hdr pd rest i,
+  zlen hdr = native_header implicit_vr ->
+  0 <= fst (lazy_range bits npx i) <= snd (lazy_range bits npx i) -> snd (lazy_range bits npx i) <= zlen pd ->
+  read_frame_raw_file implicit_vr bits npx n (hdr ++ pd ++ rest) i = read_frame_raw_native bits npx n pd i.
+Proof. exact read_file_is_read_pixeldata. Qed.
+Print Assumptions C05_reader_file_is_pixeldata.
+
+(* ---- lazily read image under histories ---- *)
+(* any history in which header edits that change something come before the first pixel_array call:
+   the lazily read image answers exactly as the in-memory image and as the cache-free reference *)
+Theorem C05_lazy_history : forall ops c pd, lops_valid (c, pd) false ops ->
+  lrun_ops (LImg c pd None) ops = run_ops (Img c pd None) (map op_of_lop ops) /\
+  lrun_ops (LImg c pd None) ops = ref_ops (c, pd) (map op_of_lop ops).
+Proof. exact lazy_equals_in_memory. Qed.
+Print Assumptions C05_lazy_history.
+
+(* from ANY coherent state (whatever was read before) *)
+Theorem C05_lazy_history_from : forall ops st cached, lcoherent st -> (l_cache st <> None -> cached = true) ->
+  lops_valid (lcontent st) cached ops ->
+  lrun_ops st ops = ref_ops (lcontent st) (map op_of_lop ops).
+Proof. exact lazy_history. Qed.
+Print Assumptions C05_lazy_history_from.
+
+(* reads only (pixel_array, single, batch, raw, decode raw), in any order and number *)
+Theorem C05_lazy_reads_any_order : forall ops c pd, valid_c c -> enough (c_fmt c) pd ->
+  forallb is_read ops = true ->
+  lrun_ops (LImg c pd None) ops = ref_ops (c, pd) (map op_of_lop ops).
+Proof. exact lazy_reads_any_order. Qed.
+Print Assumptions C05_lazy_reads_any_order.
+
+(* FULL statement (no condition on when edits happen; true of the in-memory image: C05_history_irrelevant):
+     forall ops c pd, ops_valid (c, pd) (map op_of_lop ops) ->
+       lrun_ops (LImg c pd None) ops = ref_ops (c, pd) (map op_of_lop ops)
+   is FALSE of the code: a header edit after pixel_array is ignored by every later read (finding, replayed
+   on the real code: /verif/corpus/C05/lazy_stale_after_edit.json) *)
+Theorem C05_lazy_history_refuted :
+  exists c pd ops, ops_valid (c, pd) (map op_of_lop ops) /\
+    lrun_ops (LImg c pd None) ops <> ref_ops (c, pd) (map op_of_lop ops) /\
+    lrun_ops (LImg c pd None) ops <> run_ops (Img c pd None) (map op_of_lop ops) /\
+    nth 2 (lrun_ops (LImg c pd None) ops) VNone = VL [meta c; vz_list [65535; 1]] /\
+    nth 2 (ref_ops (c, pd) (map op_of_lop ops)) VNone = VL [meta wit_c'; vz_list [-1; 1]].
+Proof. exact lazy_history_refuted. Qed.
+Print Assumptions C05_lazy_history_refuted.
+
+(* ---- non-vacuity of the extension ---- *)
+(* two frames, the first in two fragments (FF D8 ..; plain), the second one fragment (FF 4F ..); no table *)
+Example C05_example_encaps_bytes :
+  let pfs := [[[255; 216; 1; 2]; [3; 4]]; [[255; 79; 5; 6; 7; 8]]] in
+  good_pframes pfs /\ (forall f, In f pfs -> marked_pframe f) /\
+  reader_enc_bytes None [] (concat pfs) 2 0 = Ok [255; 216; 1; 2; 3; 4] /\
+  reader_enc_bytes None [] (concat pfs) 2 1 = Ok [255; 79; 5; 6; 7; 8] /\
+  reader_enc_bytes None [] (concat pfs) 2 2 = Err "ValueError"%string /\
+  lazy_raw_enc_bytes None [] (concat pfs) 2 2 false = Ok [255; 79; 5; 6; 7; 8].
+Proof.
+  cbv zeta. split; [|split; [|repeat split; reflexivity]].
+  - intros f [<- | [<- | []]]; (split; [discriminate|]); intros p Hp; cbn in Hp;
+      repeat (destruct Hp as [<- | Hp]; [split; reflexivity|]); contradiction.
+  - intros f [<- | [<- | []]]; cbn; (split; [reflexivity|]); intros q Hq;
+      repeat (destruct Hq as [<- | Hq]; [reflexivity|]); contradiction.
+Qed.
+Print Assumptions C05_example_encaps_bytes.
+
+(* lazily read image: frame read, PixelRepresentation corrected BEFORE the first pixel_array, then whole
+   array, single frame from the cache, batch: an acceptable history with an edit that changes the answers *)
+Example C05_example_lazy_history :
+  let ops := [LOne 1 false; LHeader wit_c'; LWhole; LOne 1 false; LBatch [2; 1] false] in
+  lops_valid (wit_c, wit_pd) false ops /\
+  run_lazy_history wit_c wit_pd ops =
+    VL [VL [meta wit_c; vz_list [65535; 1]]; VNone; VL [meta wit_c'; vz_list2 [[-1; 1]; [2; 3]]];
+        VL [meta wit_c'; vz_list [-1; 1]]; VL [meta wit_c'; vz_list2 [[2; 3]; [-1; 1]]]].
+Proof.
+  cbv zeta. split; [|vm_compute; reflexivity].
+  cbn [lops_valid fst snd]. unfold valid_c, valid_fmt, enough. cbn [wit_c wit_c' c_fmt c_planar f_bits f_npx f_frames].
+  repeat split; try (vm_compute; congruence); auto; try discriminate.
+Qed.
+Print Assumptions C05_example_lazy_history.
+
+(* geometry / range: 2 x 1 RGB, 12 bits stored signed *)
+Example C05_example_shape :
+  let c := CFmt (Fmt 16 12 true 6 1) 3 false 2 in
+  geometry c 1 /\ shape_of c = [2; 1; 3] /\ stored_range (c_fmt c) (-2048) /\ ~ stored_range (c_fmt c) 2048.
+Proof. exact example_shape. Qed.
+Print Assumptions C05_example_shape.
